@@ -7,7 +7,8 @@ deadline, or emptied by drain_read_buffer on step-down, or is in the listed set 
 timeout alone; in the tick sweeps and in drain_read_buffer every sender taken out is answered; a new
 sender-holding field is picked up automatically and must satisfy the same table; (c) the deadline of a queued
 element (WriteMetadata / PendingReadBatch / PendingLeaseRead / PostCommitEntry .deadline, the value tick compares with
-now) is assigned only before the element is queued - never through a reference into a LeaderState queue.
+now) is assigned only before the element is queued - never through a reference into a LeaderState queue; (d) loops
+that answer the senders of a batch have a single exit (iterator exhausted).
 Necessary conditions, not the whole behaviour (a dropped sender counts as a response: the receiver
 sees RecvError and the boundary maps it to an error)."""
 from .helpers_r1 import *
@@ -156,6 +157,39 @@ _run_ab = run
 def run(ctx):
     _run_ab(ctx)
     deadlines_fixed_at_insertion(ctx)
+    answer_loops_single_exit(ctx)
+
+
+def answer_loops_single_exit(ctx):
+    """C30-d every sender of a batch is answered: a loop in raft_role that sends on client response senders (the drains on
+    step-down / fatal error, the tick sweeps, commit / apply completion, batch rejection) is left only when its iterator is
+    exhausted. A `break` / `return` / `?` inside such a loop leaves the remaining requests of the batch without the answer
+    the loop exists to give (their senders are dropped unanswered or stay parked)."""
+    F = ctx.F
+    n = 0
+    for bid, b in sorted(F.bodies.items()):
+        if b.crate != "d_engine_core" or is_test_body(b) or "/raft_role/" not in (b.file or ""):
+            continue
+        root = F.root_of[bid]
+        per = {}
+        for (bi, t) in calls_matching(b, SEND):
+            h, early = loop_early_exits(F, b, bi)
+            if h is None:
+                continue
+            # only loops whose ELEMENT is (or holds) the sender being answered: a search loop that answers one captured
+            # sender and breaks is not a batch answer
+            el = b.term(h)["dest"]["l"]
+            if el not in Slice(F, b).operand(t["args"][0]).seen:
+                continue
+            per.setdefault(h, []).append((bi, early))
+        for i, h in enumerate(sorted(per)):
+            (bi, early) = per[h][0]
+            n += 1
+            ctx.check("C30-d", "%s#answer-loop[%d]#single-exit" % (fkey(root), i), not early,
+                      "the loop answering the senders of a batch runs to the end of the batch",
+                      "a loop that answers client response senders can be left early at %s: the remaining requests of the batch get no answer from it" % [loc(b, x) for (x, _y) in early[:3]],
+                      loc(b, bi))
+    ctx.floor("C30-d", n, 20, "loops in raft_role that answer client response senders")
 
 
 def deadline_adts(F):
